@@ -90,10 +90,41 @@ pub fn install_panic_hook() {
     }));
 }
 
+/// Threads that are inside a call into pyxis right now, with the time they entered it.
+static IN_PYXIS: std::sync::Mutex<Vec<(std::thread::ThreadId, std::time::Instant)>> = std::sync::Mutex::new(Vec::new());
+
+/// How long one call into pyxis (parse, add_module, build, write_module: milliseconds) may
+/// take before the whole check gives up. A thread cannot be killed, so the process ends:
+/// INCONCLUSIVE (exit 2), never a verdict — C12's workers are the ones that turn a build
+/// that does not return into a violation.
+pub const PYXIS_CALL_LIMIT_SECS: u64 = 300;
+
+/// Started once by `main`: ends the process when a call into pyxis has not returned in time.
+pub fn start_call_watchdog(prop: String) {
+    std::thread::spawn(move || loop {
+        std::thread::sleep(std::time::Duration::from_secs(5));
+        let stuck = IN_PYXIS.lock().map(|v| v.iter().any(|(_, since)| since.elapsed().as_secs() > PYXIS_CALL_LIMIT_SECS)).unwrap_or(false);
+        if stuck {
+            println!("INCONCLUSIVE property={prop} reason=a call into pyxis did not return within {PYXIS_CALL_LIMIT_SECS} s (calls take milliseconds); the check cannot go on");
+            println!("{prop} INCONCLUSIVE (watchdog)");
+            std::process::exit(2);
+        }
+    });
+}
+
 pub fn guarded<T>(f: impl FnOnce() -> T) -> Result<T, String> {
     QUIET.with(|q| *q.borrow_mut() = true);
     LAST_PANIC.with(|p| *p.borrow_mut() = None);
+    let me = std::thread::current().id();
+    if let Ok(mut v) = IN_PYXIS.lock() {
+        v.push((me, std::time::Instant::now()));
+    }
     let r = catch_unwind(AssertUnwindSafe(f));
+    if let Ok(mut v) = IN_PYXIS.lock() {
+        if let Some(i) = v.iter().rposition(|(t, _)| *t == me) {
+            v.remove(i);
+        }
+    }
     QUIET.with(|q| *q.borrow_mut() = false);
     match r {
         Ok(v) => Ok(v),
